@@ -4,7 +4,7 @@
      Message.to_dict(extended) / Message.from_dict, Block.__init__/__setitem__/finalize,
      AbstractMessageLogEntry.__init__ (the meta dict it builds for region = session = None),
      .to_dict / .apply_dict, the region_name / agent_id properties,
-     LLUDPMessageLogEntry.to_dict / from_dict / message / freeze / name / seq / method,
+     LLUDPMessageLogEntry.to_dict / from_dict / _restore_value_classes / message / freeze / name / seq / method,
      EQMessageLogEntry.to_dict / from_dict, export_log_entries / import_log_entries.
 
    Python values.  [yv] keeps the distinctions of the classes that can sit in a
@@ -376,6 +376,108 @@ Definition plain_msg (m : msg) : bool :=
 (* the LLSD tree of the exported message and "same exported form" *)
 Definition msg_tree (m : msg) : llsd := tree_of (to_dict true m).
 
+(* ---------- LLUDPMessageLogEntry._restore_value_classes (since fix 23066bc) ---------- *)
+
+(* what the template says about a variable, as far as the restoration reads it:
+   _COORD_CLASSES[tmpl_var.type] (LLVector3 / LLVector3d -> Vector3, LLVector4 -> Vector4,
+   LLQuaternion -> Quaternion), or "Fixed / Variable and not probably_binary" *)
+Inductive vkind : Type := KCoord (k : ccls) | KStringy.
+
+(* template lookup: message name, block name, variable name -> None when the message, the
+   block or the variable is not in the template or the variable is of another type (the
+   code does nothing in all these cases).  The live template is supplied by the harness
+   with every case. *)
+Definition tmpl : Type := list N -> list N -> list N -> option vkind.
+
+Definition coord_arity (k : ccls) : nat := match k with CVec2 => 2 | CVec3 => 3 | CVec4 | CQuat => 4 end.
+Definition F_ONE : N := 4607182418800017408.        (* 1.0 *)
+(* the constructor defaults of the vectors: 0.0.  Quaternion(X, Y, Z) computes W with float
+   arithmetic (sqrt(1 - |v|^2)): only the full four components are inside the model *)
+Definition coord_defaults (k : ccls) : list N :=
+  match k with CVec2 => [0; 0] | CVec3 => [0; 0; 0] | CVec4 => [0; 0; 0; 0] | CQuat => [0; 0; 0; F_ONE] end.
+Definition coord_len_ok (k : ccls) (n : nat) : bool :=
+  match k with CQuat => (n =? 4)%nat | _ => (n <=? coord_arity k)%nat end.
+
+Definition float_of (v : yv) : option N := match v with YFloat b => Some b | _ => None end.
+
+(* one variable.  None = the code raises (the coordinate constructor applied to too many
+   components) or the case is outside the model (a component that is not a float: float() of
+   it; a Quaternion from fewer than four components) *)
+Definition restore_val (tv : option vkind) (v : yv) : option yv :=
+  match v with
+  | YUuid UStd u => Some (YUuid UHippo u)                       (* type(value) is uuid.UUID *)
+  | _ =>
+      match tv with
+      | None => Some v
+      | Some (KCoord k) =>
+          match v with
+          | YSeq SList l =>                                     (* isinstance(value, list) *)
+              match mapM float_of l with
+              | Some xs =>
+                  if coord_len_ok k (length xs)
+                  then Some (YCoord k (xs ++ skipn (length xs) (coord_defaults k)))
+                  else None
+              | None => None
+              end
+          | _ => Some v
+          end
+      | Some KStringy =>
+          match v with
+          | YBytes BPlain s => Some (YBytes BJank s)            (* type(value) is bytes *)
+          | _ => Some v
+          end
+      end
+  end.
+
+Definition restore_vars (tb : list N -> option vkind) (b : ydict) : option ydict :=
+  mapM (fun kv => match restore_val (tb (fst kv)) (snd kv) with Some v => Some (fst kv, v) | None => None end) b.
+
+Definition restore_msg (tk : tmpl) (m : msg) : option msg :=
+  match mapM (fun bl => match mapM (restore_vars (tk (m_name m) (fst bl))) (snd bl) with
+                        | Some l => Some (fst bl, l)
+                        | None => None
+                        end) (m_blocks m) with
+  | Some blocks =>
+      Some (mkMsg (m_name m) blocks (m_packet_id m) (m_meta m) (m_dropped m) (m_synthetic m) (m_direction m) (m_flags m)
+                  (m_extra_cls m) (m_extra m) (m_acks_cls m) (m_acks m))
+  | None => None
+  end.
+
+(* a value that has the class the deserializer gives a variable of this kind: it comes
+   back from export / import as itself *)
+Definition is_coord (tv : option vkind) : bool := match tv with Some (KCoord _) => true | _ => false end.
+Definition is_stringy (tv : option vkind) : bool := match tv with Some KStringy => true | _ => false end.
+Definition ccls_eqb (a b : ccls) : bool :=
+  match a, b with CVec2, CVec2 | CVec3, CVec3 | CVec4, CVec4 | CQuat, CQuat => true | _, _ => false end.
+
+Definition deser_val (tv : option vkind) (v : yv) : bool :=
+  match v with
+  | YUuid UHippo _ => true
+  | YUuid UStd _ => false
+  | YCoord k xs => match tv with Some (KCoord k') => ccls_eqb k k' && (length xs =? coord_arity k)%nat | _ => false end
+  | YBytes BJank _ => is_stringy tv
+  | YBytes BPlain _ => negb (is_stringy tv)
+  | YBytes _ _ => false
+  | YSeq SList l => negb (is_coord tv) && forallb plain l
+  | YSeq STuple _ => false
+  | YDict m => forallb (fun kv => plain (snd kv)) m
+  | _ => true
+  end.
+
+(* a message as the deserializer builds it, as far as classes go: every variable has the
+   class of its template kind, meta and acks hold plain values *)
+Definition deser_classes (tk : tmpl) (m : msg) : bool :=
+  forallb (fun bl => forallb (fun b => forallb (fun kv => deser_val (tk (m_name m) (fst bl) (fst kv)) (snd kv)) b) (snd bl))
+          (m_blocks m)
+  && forallb (fun kv => plain (snd kv)) (m_meta m)
+  && forallb plain (m_acks m).
+
+(* ... and what is still lost of such a message: extra is bytes (a parsed message holds a
+   bytearray), acks a list (the deserializer stores a tuple); Message.__eq__ reads neither *)
+Definition flat (m : msg) : msg :=
+  mkMsg (m_name m) (m_blocks m) (m_packet_id m) (m_meta m) (m_dropped m) (m_synthetic m) (m_direction m) (m_flags m)
+        BPlain (m_extra m) SList (m_acks m).
+
 (* ---------- log entries ---------- *)
 
 Definition yopt_str (o : option (list N)) : yv := match o with Some s => YStr s | None => YNone end.
@@ -472,6 +574,7 @@ Section Entries.
   Variable preal : list N -> option N.          (* float(text) *)
   Variable pdate : list N -> option N.          (* _parse_datestr *)
   Variable summ : payload -> list N.            (* Message.to_summary()[:500] / format_notation(body)[:500] *)
+  Variable tk : tmpl.                           (* the message template, as far as _restore_value_classes reads it *)
   Variable pyrepr : yv -> list N.               (* repr(x).encode("utf8") *)
   Variable pyeval : list N -> option yv.        (* ast.literal_eval(data.decode("utf8")) *)
   Variable gz : list N -> list N.               (* gzip.compress *)
@@ -528,7 +631,11 @@ Section Entries.
               match yget K_message val with
               | Some (YBytes _ bs) =>
                   match of_notation bs with
-                  | Some dv => match from_dict dv with Some m => apply_dict (PUdp m) val | None => None end
+                  | Some dv =>
+                      match from_dict dv with
+                      | Some m0 => match restore_msg tk m0 with Some m => apply_dict (PUdp m) val | None => None end
+                      | None => None
+                      end
                   | None => None
                   end
               | _ => None
@@ -566,19 +673,23 @@ Section Entries.
     end.
 
   (* the entry import_log_entries(export_log_entries([e])) builds *)
-  Definition norm_payload (p : payload) : payload :=
-    match p with PUdp m => PUdp (norm_msg m) | PEq ev => PEq (norm ev) end.
+  Definition norm_payload (p : payload) : option payload :=
+    match p with
+    | PUdp m => match restore_msg tk (norm_msg m) with Some m' => Some (PUdp m') | None => None end
+    | PEq ev => Some (PEq (norm ev))
+    end.
 
+  (* base_meta reads the direction and the entry class only: the same before and after *)
   Definition imported_meta (p : payload) (meta : ydict) : option ydict :=
     match bind (dehydrate_all meta) hydrate_all with
-    | Some meta' => Some (yupdate (base_meta (norm_payload p)) meta')
+    | Some meta' => Some (yupdate (base_meta p) meta')
     | None => None
     end.
 
   Definition norm_entry (e : lentry) : option lentry :=
-    match imported_meta (le_payload e) (le_meta e) with
-    | Some meta' => Some (mkLE (Some (region_name e)) (le_agent_id e) (Some (summary e)) meta' (norm_payload (le_payload e)))
-    | None => None
+    match imported_meta (le_payload e) (le_meta e), norm_payload (le_payload e) with
+    | Some meta', Some p' => Some (mkLE (Some (region_name e)) (le_agent_id e) (Some (summary e)) meta' p')
+    | _, _ => None
     end.
 
   (* what C12's notation theorem needs of the exported trees, per entry *)
@@ -587,7 +698,10 @@ Section Entries.
 
   Definition payload_ok (p : payload) : bool :=
     wfn (payload_tree p) && oracles_ok rreal rdate preal pdate (payload_tree p)
-    && match p with PUdp m => wf_msg m | PEq _ => true end.
+    && match p with
+       | PUdp m => wf_msg m && match restore_msg tk (norm_msg m) with Some _ => true | None => false end
+       | PEq _ => true
+       end.
 
   Definition uuid_ok (u : list N) : bool := (length u =? 16)%nat && bytes_okb u.
 
@@ -631,9 +745,10 @@ Definition std_meta (p : payload) (meta : ydict) : bool :=
    pickle (_frozen_message).  The live message is a shared mutable object: [heap] maps
    references to their current contents.  pickle is a library oracle: [pk] / [unpk] over
    "None or a Message" (freeze can pickle None, see below).
-   [repickle] = which object freeze() pickles: false = self._message (the code as it
-   stands: None once frozen), true = the local `message` it has just resolved.  The
-   harness probes the live code and drives the model with the value it finds. *)
+   [repickle] = which object freeze() pickles: true = the local `message` it has just resolved
+   (the code since fix e4edfe3), false = self._message (the code before: None once frozen, so
+   a second freeze() lost the message - kept as history).  The harness probes the live code
+   and drives the model with the value it finds. *)
 Record ustate : Type := mkU {
   u_message : option nat;            (* _message *)
   u_frozen : option (list N);        (* _frozen_message *)
